@@ -244,7 +244,15 @@ AliasRmFirstDeep == C("aliasrmfirstdeep", <<R("r1", SG, 2, "a", "ctorerr", FALSE
                                             R("r2", SG, 3, "a", "ctorerr", FALSE, <<P("S2")>>),
                                             Rmd(As(R("r3", SG, 0, "a", "ctorerr", FALSE, <<P("S3")>>), <<"I0", "I1">>), <<1>>),
                                             R("r4", SC, 1, "a", "ctorerr", FALSE, <<P("I1")>>)>>)
-CfgRemoved == {InitNamed, InitNamedRm, MultiRmFirstDeep, AliasRmFirstDeep, MultiRmReadd, MultiRmFirst, OutKNRmFirst, MultiRmAll}
+\* an initialization function registered as TRANSIENT: never run by the container on its own, runs per keyed request
+InitTransient == C("inittransient", <<R("r1", SG, 0, "a", "ctorerr", FALSE, <<>>),
+                                      Named(R("r2", TR, 0, "a", "init", FALSE, <<P("S0")>>)),
+                                      R("r3", SC, 1, "a", "ctorerr", FALSE, <<P("S0")>>)>>)
+InitTransientMissing == C("inittransientmissing", <<Named(R("r1", TR, 0, "a", "init", FALSE, <<P("S3")>>)),
+                                                    R("r2", SC, 1, "a", "ctorerr", FALSE, <<>>)>>)
+InitSingMissing == C("initsingmissing", <<R("r1", SG, 0, "a", "initerr", FALSE, <<P("S3")>>),
+                                          R("r2", SC, 1, "a", "ctorerr", FALSE, <<>>)>>)
+CfgRemoved == {InitNamed, InitNamedRm, InitTransient, MultiRmFirstDeep, AliasRmFirstDeep, MultiRmReadd, MultiRmFirst, OutKNRmFirst, MultiRmAll}
 CfgRemovedDefective == {RmFirstCaptive, RmFirstCaptiveOut, RmFirstMissing, RmFirstMissingOut, RmFirstCycle}
 
 \* the same transient requested by two FIELDS of one parameter object (plain, named, group), by a scoped consumer,
@@ -288,7 +296,7 @@ CfgMore == {Embedded, AliasDeps, DupDeps, DiamondPO, DiamondPOKG, Alias2Transien
 Plain == {Basic, Chain, Keyed, Group, GroupScoped, GroupDeps, Multi, MultiTr, OutKN, OutKNSing, Alias1, Alias2,
           Alias2Scoped, Diamond2, Optional, Inits, InitSing, Builtin, InstVal, InstVals} \cup CfgForms \cup CfgMore \cup CfgRemoved
 Defective == {Cycle2, CycleGroup, Captive, CaptiveGroup, MissingDep, GroupMixedCaptive, GroupMixedCaptive2, CycleOptional, MissingKeyed}
-             \cup CfgRemovedDefective \cup {CycleEmbedded, CaptiveAlias2, CaptiveAlias2Tr, CycleAlias}
+             \cup CfgRemovedDefective \cup {CycleEmbedded, CaptiveAlias2, CaptiveAlias2Tr, CycleAlias, InitTransientMissing, InitSingMissing}
 
 Hows == {"err", "panic"}
 \* a scripted error needs a constructor shape that can return one
